@@ -69,6 +69,17 @@ for q in u.QUANTITIES:
                 if (x == z) != (x.si == z.si) or (x < z) != (x.si < z.si) or (x >= z) != (x.si >= z.si) or (x != z) != (x.si != z.si):
                     viol.append("%s(%r,%r) comparisons with %s(2.0,%r) disagree with SI values" % (q.__name__, v, un, q.__name__, other))
                 str(x)
+                # re-expressing a quantity that was itself re-expressed or computed (its SI value is not of the form
+                # value * factor of its current unit) in ANY unit -- the same one and alias spellings included --
+                # leaves the SI value bit-identical
+                for w0 in (q(v * 3.4 + 0.1, un).as_unit(other), q(v + 1.0 / 3.0, un) + z, q(0.7, other) - q(v, un)):
+                    for t in units:
+                        if not isinstance(q._units[t], (int, float)):
+                            continue
+                        nchecks += 1
+                        w = w0.as_unit(t)
+                        if w.si != w0.si or w.unit != t:
+                            viol.append("%s: as_unit(%r) of a quantity with si %r in unit %r gives si %r unit %r" % (q.__name__, t, w0.si, w0.unit, w.si, w.unit))
             except Exception as e:
                 viol.append("%s(%r,%r): %s: %s" % (q.__name__, v, un, type(e).__name__, e))
 # mixed-type refusal
@@ -83,6 +94,50 @@ for a in u.QUANTITIES[:41]:
             viol.append("%s %s %s accepted" % (a.__name__, op, b.__name__))
         except (ValueError, TypeError):
             pass
+# SI unit strings: every string the library itself prints (all print formats) parses back to the same signature
+rt_viol = []
+rt_checks = 0
+U = list(u.SI.SIUNITS)
+vecs = [list(q.sisig()) for q in u.QUANTITIES]
+for i in range(9):
+    for e in range(-9, 10):
+        if e:
+            v = [0] * 9; v[i] = e; vecs.append(v)
+    for j in range(9):
+        if i < j:
+            for ei in range(-3, 4):
+                for ej in range(-3, 4):
+                    if ei and ej:
+                        v = [0] * 9; v[i] = ei; v[j] = ej; vecs.append(v)
+for k in range(7):
+    v = [0] * 9; v[k] = 1; v[k + 1] = 2; v[k + 2] = -1; vecs.append(v)
+    v = [0] * 9; v[k] = -2; v[k + 1] = 1; v[k + 2] = 1; vecs.append(v)
+def canon(v):
+    return ".".join(U[i] + (str(v[i]) if v[i] != 1 else "") for i in range(9) if v[i])
+for v in vecs:
+    if not any(v):
+        continue
+    try:
+        x = u.SI(1.0, canon(v))
+        if list(x.sisig()) != v:
+            rt_viol.append("SI(1.0, %r).sisig() = %s, expected %s" % (canon(v), list(x.sisig()), v)); continue
+    except Exception as e:
+        rt_viol.append("SI(1.0, %r): %s: %s" % (canon(v), type(e).__name__, e)); continue
+    for div in (True, False):
+        for hat in ("", "^"):
+            for dot in ("", "."):
+                rt_checks += 1
+                st = None
+                try:
+                    st = x.siunit(div, hat, dot)
+                    back = list(u.SI.str_to_sisig(st))
+                    if back != v:
+                        rt_viol.append("signature %s prints as %r which parses as %s" % (v, st, back))
+                except Exception as e:
+                    rt_viol.append("signature %s prints as %r which does not parse: %s: %s" % (v, st, type(e).__name__, e))
+out["roundtrip_checks"] = rt_checks
+out["roundtrip_violations"] = rt_viol[:20]
+out["roundtrip_violation_count"] = len(rt_viol)
 out["sweep_checks"] = nchecks
 out["sweep_violations"] = viol[:30]
 out["sweep_violation_count"] = len(viol)
@@ -250,9 +305,18 @@ def load(reg):
         return out
     reg.ground_obligation("compound units agree with their component units", C17, compound_units)
 
+    def si_roundtrip(table):
+        d = dump_tables()
+        return [("BOUNDED: SI unit strings round-trip through printing (div x hat x dot formats) and parsing for the signatures of all "
+                 "quantities, every single base unit with exponents -9..9, every pair of base units with exponents -3..3 and mixed "
+                 "triples (%d print/parse evaluations)" % d["roundtrip_checks"],
+                 d["roundtrip_violation_count"] == 0, "; ".join(d["roundtrip_violations"][:4]))]
+    reg.ground_obligation("BOUNDED stand-in: SI unit strings round-trip through printing and parsing", C16, si_roundtrip)
+
     def sweep(table):
         d = dump_tables()
         return [("BOUNDED: construction / display value / as_unit / + - neg abs keep the left unit and act on SI values / comparisons / "
-                 "str() for every class x every declared unit x 6 values, mixed-type + - < refused (%d native evaluations)" % d["sweep_checks"],
+                 "str() for every class x every declared unit x 6 values; as_unit into every unit (same unit and aliases included) of re-expressed "
+                 "and computed quantities is bit-identical; mixed-type + - < refused (%d native evaluations)" % d["sweep_checks"],
                  d["sweep_violation_count"] == 0, "; ".join(d["sweep_violations"][:4]))]
     reg.ground_obligation("BOUNDED stand-in: native sweep of Quantity construction, conversion and same-type arithmetic", C17, sweep)
